@@ -3,6 +3,7 @@ package builder
 import (
 	"errors"
 	"fmt"
+	"sort"
 
 	"github.com/mna/pigeon/ast"
 )
@@ -31,9 +32,18 @@ func PrepareGrammar(grammar *ast.Grammar) (bool, error) {
 
 // ComputeNullables evaluates nullable nodes.
 func ComputeNullables(rules map[string]*ast.Rule) {
-	// Compute which rules in a grammar are nullable
-	for _, rule := range rules {
-		rule.NullableVisit(rules)
+	// Compute which rules in a grammar are nullable.
+	// Rules that are being visited count as non-nullable (see
+	// ast.Rule.NullableVisit), so for mutually recursive rules the flags
+	// depend on where the traversal starts: visit the rules in a stable
+	// order, otherwise the generated parser changes from run to run.
+	names := make([]string, 0, len(rules))
+	for name := range rules {
+		names = append(names, name)
+	}
+	sort.Strings(names)
+	for _, name := range names {
+		rules[name].NullableVisit(rules)
 	}
 }
 
